@@ -135,6 +135,10 @@ def parse_diagnostics(stderr_text, manifest, unit_lines, safety_clause):
                 po0 = origin_of(manifest, prim["line_start"])
                 if mm and po0.startswith("repo:"):
                     rec["extra_item"] = "%s::%s" % (po0.split(":")[1], mm.group(1))
+                # an unknown free function called from extracted code: a helper the changed code introduced
+                mf = re.match(r"cannot find function `([a-z_][a-z0-9_]*)` in this scope", msg)
+                if mf and po0.startswith("repo:"):
+                    rec["extra_fn"] = "%s::%s" % (po0.split(":")[1], mf.group(1))
                 # a compile error inside spliced hint text (e.g. the hint names a local that the changed
                 # code renamed): the driver retries with the hints of that function dropped
                 po = origin_of(manifest, prim["line_start"])
@@ -238,7 +242,7 @@ def verus_cmd(path, extra=None):
     return ["verus", path, "--multiple-errors", "60", "--output-json", "--time", "--error-format=json"] + (extra or [])
 
 
-def run_unit(scratch, unit, prefixes, prop, tier, safety_default=None, drop_hints=None, extra_items=None):
+def run_unit(scratch, unit, prefixes, prop, tier, safety_default=None, drop_hints=None, extra_items=None, extra_fns=None):
     work = os.path.join(scratch, "verus-" + unit)
     os.makedirs(work, exist_ok=True)
     vrs = os.path.join(CONTRACTS, unit + ".vrs")
@@ -249,6 +253,8 @@ def run_unit(scratch, unit, prefixes, prop, tier, safety_default=None, drop_hint
         xenv["XTRACT_DROP_HINTS"] = ",".join(sorted(drop_hints))
     if extra_items:
         xenv["XTRACT_EXTRA_ITEMS"] = ",".join(sorted(extra_items))
+    if extra_fns:
+        xenv["XTRACT_EXTRA_FNS"] = ",".join(sorted(extra_fns))
     rc, so, se, w0 = run([XTRACT, scratch, vrs, out_rs, out_mf], timeout=120, env=xenv)
     if rc != 0:
         raise Undecided("xtract %s: %s" % (unit, (se or so).strip()[-600:]))
@@ -277,9 +283,10 @@ def run_unit(scratch, unit, prefixes, prop, tier, safety_default=None, drop_hint
     failures, tool = parse_diagnostics(se, manifest, unit_lines, safety)
     bad_hint_fns = {t["hint_fn"] for t in tool if t.get("hint_fn")} - set(drop_hints or ())
     new_items = {t["extra_item"] for t in tool if t.get("extra_item")} - set(extra_items or ())
-    if bad_hint_fns or new_items:
+    new_fns = {t["extra_fn"] for t in tool if t.get("extra_fn")} - set(extra_fns or ())
+    if bad_hint_fns or new_items or new_fns:
         return run_unit(scratch, unit, prefixes, prop, tier, safety_default, set(drop_hints or ()) | bad_hint_fns,
-                        set(extra_items or ()) | new_items)
+                        set(extra_items or ()) | new_items, set(extra_fns or ()) | new_fns)
     if vr.get("encountered-vir-error") or (not vr.get("success") and not failures and not tool):
         raise Undecided("verus could not process unit %s (dialect/type error): %s" % (unit, se[-1500:]))
     funcs = []
@@ -289,10 +296,16 @@ def run_unit(scratch, unit, prefixes, prop, tier, safety_default=None, drop_hint
                           "rlimit": f.get("rlimit"), "success": f.get("success")})
     lost_hints = [h for f in manifest["functions"] for h in f.get("lost_hints", [])]
     lost_fns = {h["fn"] for h in lost_hints}
+    # functions that call a helper extracted without a contract (introduced by the change): what they
+    # can prove about the helper's result is nothing, so their failures need a witness as well
+    auto_names = [f["anchor"].rsplit("::", 1)[-1] for f in manifest["functions"] if f.get("auto")]
+    calls_auto = {f["anchor"] for f in manifest["functions"]
+                  if any(re.search(r"\b%s\s*\(" % re.escape(a), f.get("text", "")) for a in auto_names)}
+    auto_fns = {f["anchor"] for f in manifest["functions"] if f.get("auto")}
     for f in failures:
         # a proof hint of this function could not be re-attached to the changed code: a failing
         # obligation may be the missing hint, not the property -> needs a witness to count
-        f["weak"] = f.get("function") in lost_fns
+        f["weak"] = f.get("function") in lost_fns or f.get("function") in calls_auto or f.get("function") in auto_fns
     extracted = [{"anchor": f["anchor"], "file": f["file"], "line": f["line"], "kind": f["kind"],
                   "sha256": sha256(f["text"])[:16]} for f in manifest["functions"]]
     rules = {}
